@@ -2,7 +2,6 @@ package gov
 
 import (
 	"fmt"
-	"time"
 
 	"github.com/KiraCore/sekai/x/gov/keeper"
 	"github.com/KiraCore/sekai/x/gov/types"
@@ -24,7 +23,7 @@ func EndBlocker(ctx sdk.Context, k keeper.Keeper) {
 		processProposal(ctx, k, keeper.BytesToProposalID(activeIterator.Value()))
 	}
 
-	pollIterator := k.GetPollsWithFinishedVotingEndTimeIterator(ctx, time.Now())
+	pollIterator := k.GetPollsWithFinishedVotingEndTimeIterator(ctx, ctx.BlockTime())
 	defer pollIterator.Close()
 	for ; pollIterator.Valid(); pollIterator.Next() {
 		processPoll(ctx, k, sdk.BigEndianToUint64(pollIterator.Value()))
